@@ -95,6 +95,10 @@ Common(tr, T, ev) ==
           /\ post.vol[k][i] < vol[k][i] => post.vol[k][i] >= T.lw[k].minv),
     Cl("C02.okbounds", ev.out = "ok",
        \A k \in 1..NLw(tr) : \A i \in 1..Len(post.vol[k]) : post.vol[k][i] <= T.lw[k].maxv \/ post.vol[k][i] = vol[k][i]),
+    \* behaviours enumerated by TLC on the bounded model carry the model's own verdict for every step
+    Cl("C04.model", ev.hasmodel,
+       LET class(o) == IF o \in {"overflow", "underflow", "invalidop", "ok"} THEN o ELSE "rejected" IN
+       class(ev.out) = class(ev.model.out) /\ post.vol = ev.model.vol),
     Cl("C04.frame", TRUE,
        \A k \in (1..NLw(tr)) \ part : post.vol[k] = vol[k] /\ pc[k] = comp[k] /\ post.hn[k] = hn[k]),
     Cl("C05.sane", F.comp /\ cok /\ ev.cs,
@@ -231,6 +235,8 @@ JudgeTransfer(tr, T, ev) ==
     Cl("C01.failrobot", F.robot /\ live /\ valid /\ ev.out \in {"overflow", "underflow"}, rb.err = "" /\ rb.vol = post.vol),
     Cl("C05.transfercomp", F.robot /\ F.comp /\ cok /\ ev.cs /\ live /\ valid /\ ok /\ rb.err = "" /\ ~rb.unknown,
        \A k \in 1..NLw(tr) : \A i \in 1..Len(post.vol[k]) : post.vol[k][i] > 0 => pc[k][i] = rb.comp[k][i]),
+    Cl("C01.robotcomp", F.robot /\ F.comp /\ cok /\ ev.cs /\ live /\ valid /\ ok /\ rb.err = "" /\ ~rb.unknown,
+       \A k \in 1..NLw(tr) : \A i \in 1..Len(post.vol[k]) : post.vol[k][i] > 0 => pc[k][i] = rb.comp[k][i]),
     Cl("C05.conserved", F.comp /\ cok /\ ev.cs /\ valid /\ ok,
        LET names == NamesOf(comp, a.src) \cup NamesOf(comp, a.dst) \cup NamesOf(pc, a.src) \cup NamesOf(pc, a.dst)
            Tot(v, c, nm) == IF same THEN Amount(v[a.src], c[a.src], nm)
@@ -296,6 +302,8 @@ JudgeDistribute(tr, T, ev) ==
     Cl("C01.robot", F.robot /\ live /\ T.dev # "base" /\ valid /\ ok,
        rb.err = "" /\ rb.vol = post.vol),
     Cl("C05.distcomp", F.robot /\ F.comp /\ cok /\ ev.cs /\ live /\ T.dev # "base" /\ valid /\ ok /\ rb.err = "" /\ ~rb.unknown,
+       \A k \in 1..NLw(tr) : \A i \in 1..Len(post.vol[k]) : post.vol[k][i] > 0 => pc[k][i] = rb.comp[k][i]),
+    Cl("C01.robotcomp", F.robot /\ F.comp /\ cok /\ ev.cs /\ live /\ T.dev # "base" /\ valid /\ ok /\ rb.err = "" /\ ~rb.unknown,
        \A k \in 1..NLw(tr) : \A i \in 1..Len(post.vol[k]) : post.vol[k][i] > 0 => pc[k][i] = rb.comp[k][i]),
     Cl("C11.count", live /\ T.dev # "base" /\ valid /\ ok,
        IF same THEN post.hn[ks] = hn[ks] + 1 ELSE post.hn[ks] = hn[ks] + 1 /\ post.hn[kd] = hn[kd] + 1),
@@ -489,6 +497,37 @@ JudgeDilution(tr, T, ev) ==
   }
 
 (***************************************************************************)
+(* Full history programs (C11): the whole history and the printable report *)
+(* are logged after every event; the final pseudo event carries the arrays *)
+(* obtained from `volumes` earlier, as they are at the end of the program. *)
+(***************************************************************************)
+\* row-major listing of a column-major flat snapshot of labware geometry g
+RowMajor(g, s) == [i \in 1..(g.rows * g.cols) |-> s[((i - 1) % g.cols) * g.rows + ((i - 1) \div g.cols) + 1]]
+
+JudgeFullHist(tr, T, ev) ==
+  LET post == ev.post IN {
+    Cl("C11.fullprefix", live /\ l > 1 /\ tr.events[l - 1].out = "ok" /\ ev.out = "ok",
+       \A k \in 1..NLw(tr) :
+          LET old == tr.events[l - 1].post.hist[k]  new == post.hist[k] IN
+          Len(new) >= Len(old) /\ SubSeq(new, 1, Len(old)) = old),
+    Cl("C11.report", ev.out = "ok",
+       \A k \in 1..NLw(tr) :
+          LET h == post.hist[k]  rp == post.report[k]  g == T.lw[k].g IN
+          /\ rp.ok /\ Len(rp.blocks) = Len(h)
+          /\ \A i \in 1..Len(h) :
+                /\ rp.blocks[i].rowmajor = RowMajor(g, h[i].s)
+                /\ rp.blocks[i].h = (h[i].h /\ h[i].l # "")
+                /\ rp.blocks[i].h => rp.blocks[i].l = h[i].l),
+    Cl("C11.histlen", TRUE, \A k \in 1..NLw(tr) : Len(post.hist[k]) = post.hn[k])
+  }
+
+JudgeFinal(tr, T, ev) == {
+    Cl("C11.snapshots", TRUE,
+       /\ Len(ev.a.held) = l - 1
+       /\ \A j \in 1..(l - 1) : ev.a.held[j] = tr.events[j].post.vol)
+  }
+
+(***************************************************************************)
 (* Saving (C17): save(path), leaving the with-block, entering it, str().   *)
 (***************************************************************************)
 CpLines(recs) == [i \in 1..Len(recs) |-> recs[i].cp]
@@ -519,8 +558,10 @@ JudgeEvent(tr, T, ev) ==
           [] ev.op \in {"evo_aspirate", "evo_dispense"} -> JudgeEvo(tr, T, ev)
           [] ev.op = "evo_wash" -> JudgeEvoWash(tr, T, ev)
           [] ev.op = "dilution" -> JudgeDilution(tr, T, ev)
+          [] ev.op = "final" -> JudgeFinal(tr, T, ev)
           [] OTHER -> {Cl("machinery.unknown_op", TRUE, FALSE)})
   \cup (IF tr.pair THEN JudgePair(tr, ev) ELSE {})
+  \cup (IF tr.flags.fullhist THEN JudgeFullHist(tr, T, ev) ELSE {})
 
 InitOf(t) == LET tr == Traces[t] IN
   [vol |-> [k \in 1..NLw(tr) |-> tr.lw[k].init.vol],
